@@ -15,7 +15,13 @@ var Floats []float64
 // IntFn, if set, maps Intn's argument to the alphabet of answers.
 var IntFn func(n int) []int
 
+// Script, if set, answers Float64 outside any vrt execution (sequential E2 harnesses).
+var Script func() float64
+
 func Float64() float64 {
+	if Script != nil {
+		return Script()
+	}
 	s := vrt.Cur()
 	if s == nil || len(Floats) == 0 {
 		return 0
